@@ -110,7 +110,7 @@ enum Action {
 }
 
 fn chain_only(ev: &Ev) -> bool {
-    matches!(ev, Ev::Mine(_) | Ev::Reorg { .. } | Ev::External(_))
+    matches!(ev, Ev::Mine(_) | Ev::Reorg { .. } | Ev::External(_) | Ev::Evict(_))
 }
 
 /// pre ++ [interrupted step] ++ (chain events that happen while the tower is down) ++ [restart]
@@ -694,7 +694,7 @@ pub fn c03(tier: Tier) -> i32 {
         let mut points = 0u64;
         for step in 0..h.len() {
             let is_req = matches!(h[step], Ev::Register(_) | Ev::Add { .. });
-            let touches_tower = !matches!(h[step], Ev::Mine(_) | Ev::Reorg { .. } | Ev::External(_));
+            let touches_tower = !matches!(h[step], Ev::Mine(_) | Ev::Reorg { .. } | Ev::External(_) | Ev::Evict(_));
             let kinds: Vec<RefKind> = if is_req { vec![RefKind::Took, RefKind::Lost, RefKind::Resent, RefKind::Twice] } else { vec![RefKind::Took, RefKind::Lost] };
             let mk = |effect: Option<u64>| CrashCase { cfg, history: h.clone(), step, effect, resend: false, failed_download: None };
             let refs_full: Vec<(RefKind, Outcome)> = kinds.iter().map(|k| (*k, reference(&mk(None), *k))).collect();
